@@ -180,6 +180,8 @@ def gen_case(rng, focus="c13"):
         dst["doc"] = copy.deepcopy(rng.choice(DOCS))
     if rng.random() < 0.03:
         dst["stale_backup"] = True  # a left-over '<project document>~'
+    if src["jobs"] and rng.random() < 0.12:
+        src["stale_cache"] = True   # the source has a persistent state point cache that misses its newest job
     opts = {
         "strategy": rng.choice(STRATEGIES if focus != "c13" else STRATEGIES + ["always", "update", "never"]),
         "doc_sync": rng.choice(DOC_SYNCS + ["update", "bykey_fn", "no_sync"] if focus == "c13" else
@@ -243,7 +245,13 @@ def build_project(root, spec):
     import signac
 
     p = signac.init_project(root)
-    for j in spec["jobs"]:
+    for n_, j in enumerate(spec["jobs"]):
+        if spec.get("stale_cache") and n_ == len(spec["jobs"]) - 1:
+            p.update_cache()        # written before the last job exists (also when it is the only one: an empty cache)
+            if not os.path.exists(os.path.join(root, ".signac", "statepoint_cache.json.gz")):
+                import gzip
+                with gzip.open(os.path.join(root, ".signac", "statepoint_cache.json.gz"), "wb") as f:
+                    f.write(b"{}")
         job = p.open_job(SPS[j["sp"]]).init()
         for d in j["dirs"]:
             os.makedirs(os.path.join(job.path, d), exist_ok=True)
@@ -913,7 +921,9 @@ def observe(case, ctx, second_run=True, twin_opts=None):
             tcase = copy.deepcopy(case)
             tcase["opts"].update(twin_opts)
             torder = src_iteration_order(tsd)
-            same_start = strip_times(snapshot(tsd)) == strip_times(o.s0) and strip_times(snapshot(tdd)) == strip_times(o.d0)
+            def _nocache(sn):   # the gzip header of a state point cache carries its creation time
+                return {k: v for k, v in strip_times(sn).items() if not k.endswith("statepoint_cache.json.gz")}
+            same_start = _nocache(snapshot(tsd)) == _nocache(o.s0) and _nocache(snapshot(tdd)) == _nocache(o.d0)
             k, p, _ = run_real(tcase, tsd, tdd)
             o.twin = {"kind": k, "payload": p, "s": snapshot(tsd), "d": snapshot(tdd), "case": tcase,
                       "same_order": torder == o.listing, "same_start": same_start}
